@@ -393,7 +393,7 @@ def degenerate(rng, kind="degenerate-values"):
     return out
 
 
-API_VARIANTS = ["pos", "kw", "nostoich", "nondeg", "staged", "lazy", "twice", "und", "multi"]
+API_VARIANTS = ["pos", "kw", "nostoich", "nondeg", "listfn", "staged", "lazy", "twice", "und", "multi"]
 
 
 def api_surface(rng, kind="api"):
